@@ -5,7 +5,7 @@ rnd, prop, n, detected_by, needs = sys.argv[1:6]
 extra = sys.argv[6] if len(sys.argv) > 6 else ""
 src = "/tmp/out%s-%s" % (rnd, prop)
 existing = [d for d in os.listdir("/verif/seeded") if d.startswith(prop + "-")]
-sid = "%s-%d" % (prop, len(existing) + 1)
+sid = "%s-%d" % (prop, max([int(d.split("-")[1]) for d in existing] + [0]) + 1)
 dst = "/verif/seeded/%s" % sid
 os.makedirs(dst)
 shutil.copy(os.path.join(src, "patch%s.diff" % n), os.path.join(dst, "patch.diff"))
